@@ -64,6 +64,12 @@ impl Tracked {
     }
 }
 
+impl PartialEq for Tracked {
+    fn eq(&self, o: &Self) -> bool {
+        self.val == o.val
+    }
+}
+
 impl Clone for Tracked {
     fn clone(&self) -> Self {
         Tracked::new(self.val)
@@ -149,6 +155,33 @@ impl<T, const N: usize> FromColorUnclamped<ProbeA<T, N>> for ProbeA<T, N> {
     fn from_color_unclamped(a: ProbeA<T, N>) -> Self {
         tick();
         a
+    }
+}
+impl<T, const N: usize> FromColorUnclamped<ProbeB<T, N>> for ProbeB<T, N> {
+    fn from_color_unclamped(b: ProbeB<T, N>) -> Self {
+        tick();
+        b
+    }
+}
+// what every real color also has (a bound on one of these must not stop the probes from building)
+impl<T, const N: usize> core::fmt::Debug for ProbeA<T, N> {
+    fn fmt(&self, f: &mut core::fmt::Formatter<'_>) -> core::fmt::Result {
+        write!(f, "ProbeA<{N}>")
+    }
+}
+impl<T, const N: usize> core::fmt::Debug for ProbeB<T, N> {
+    fn fmt(&self, f: &mut core::fmt::Formatter<'_>) -> core::fmt::Result {
+        write!(f, "ProbeB<{N}>")
+    }
+}
+impl<T: PartialEq, const N: usize> PartialEq for ProbeA<T, N> {
+    fn eq(&self, o: &Self) -> bool {
+        self.c == o.c
+    }
+}
+impl<T: PartialEq, const N: usize> PartialEq for ProbeB<T, N> {
+    fn eq(&self, o: &Self) -> bool {
+        self.c == o.c
     }
 }
 impl<T, const N: usize> Clamp for ProbeA<T, N> {
@@ -289,6 +322,18 @@ pub fn enumerate() -> Vec<CrashPlan> {
             }
         }
     }
+    // a few lengths around chunk sizes (three components), crash at the first, a middle and the last element
+    for entry in ENTRIES {
+        if entry == CrashEntry::SingleFromColorMut {
+            continue;
+        }
+        for len in [8u8, 9, 16, 17, 33] {
+            v.push(CrashPlan { entry, len, k: None, extra_cap: len % 3, ncomp: 3 });
+            for k in [0, len / 2, len - 1] {
+                v.push(CrashPlan { entry, len, k: Some(k), extra_cap: (len + k) % 3, ncomp: 3 });
+            }
+        }
+    }
     v
 }
 
@@ -410,14 +455,14 @@ fn execute_n<const N: usize>(plan: &CrashPlan, ctx: &mut Ctx<'_>) {
                 match entry {
                     CrashEntry::SliceFromColorMut => {
                         let g = <[ProbeB<Tracked, N>]>::from_color_mut(&mut buf[..]);
-                        let same = g.len() == before.1 && (g.len() == 0 || g.as_ptr() as usize == before.0);
+                        let same = { let view: &[ProbeB<Tracked, N>] = &g; view.len() == before.1 && (view.is_empty() || view.as_ptr() as usize == before.0) };
                         // leave the converted state behind; restoring is GuardDrop's business
                         core::mem::forget(g);
                         same
                     }
                     CrashEntry::SliceFromColorUnclampedMut => {
                         let g = <[ProbeB<Tracked, N>]>::from_color_unclamped_mut(&mut buf[..]);
-                        let same = g.len() == before.1 && (g.len() == 0 || g.as_ptr() as usize == before.0);
+                        let same = { let view: &[ProbeB<Tracked, N>] = &g; view.len() == before.1 && (view.is_empty() || view.as_ptr() as usize == before.0) };
                         core::mem::forget(g);
                         same
                     }
@@ -461,7 +506,7 @@ fn execute_n<const N: usize>(plan: &CrashPlan, ctx: &mut Ctx<'_>) {
                         arm(k);
                         // ProbeA<Tracked, N> -> ProbeB<Tracked, N> -> ProbeA<Tracked, N> again, in place, without an extra restoring hop
                         let g2 = g.then_into_color_mut::<[ProbeA<Tracked, N>]>();
-                        let same = g2.len() == before.1 && (g2.len() == 0 || g2.as_ptr() as usize == before.0);
+                        let same = { let view: &[ProbeA<Tracked, N>] = &g2; view.len() == before.1 && (view.is_empty() || view.as_ptr() as usize == before.0) };
                         arm(None);
                         drop(g2);
                         same
